@@ -217,7 +217,7 @@ def check_unit(unit, tier="quick", vacuity=True):
     if "rlimit" in res["stderr"].lower() and "exceeded" in res["stderr"].lower():
         raise Undecided("rlimit", unit)
     names = [b["function"] for b in bd]
-    missing = [f["qual"] for f in g.fns if not any(n.endswith(f["qual"].split("::")[-1]) for n in names)]
+    missing = [f["qual"] for f in g.fns if not any(n.split("::")[-1] == f["rust_name"] for n in names)]
     vac = {"probed": 0, "vacuous": []}
     if vacuity:
         vtext, marks = vacuity_variant(g)
